@@ -358,6 +358,24 @@ impl<'ccx, 'tcx: 'ccx> TyGenContext<'ccx, 'tcx, '_> {
                 );
                 continue;
             }
+            if let Type::DiplomatOption(ref inner) = param.ty {
+                if let Type::Slice(hir::Slice::Strs(encoding)) = **inner {
+                    // the optional form of the above: the array of C views is built only when a value is present
+                    let c_view = match encoding {
+                        hir::StringEncoding::UnvalidatedUtf16 => "DiplomatString16View",
+                        _ => "DiplomatStringView",
+                    };
+                    param_validations.push(format!(
+                        "std::vector<diplomat::capi::{c_view}> {param}_views;\nif ({param}.has_value()) {{\n  {param}_views.reserve({param}.value().size());\n  for (const auto& {param}_view : {param}.value()) {{\n    {param}_views.push_back({{{param}_view.data(), {param}_view.size()}});\n  }}\n}}",
+                        param = param_name,
+                    ));
+                    let copt = self.c.gen_ty_name(&param.ty, &mut Default::default());
+                    cpp_to_c_params.push(
+                        format!("{param_name}.has_value() ? ({copt}{{ {{ {{{param_name}_views.data(), {param_name}_views.size()}} }}, true }}) : ({copt}{{ {{}}, false }})").into(),
+                    );
+                    continue;
+                }
+            }
             let conversion = self.gen_cpp_to_c_for_type(&param.ty, param_name);
             cpp_to_c_params.push(conversion);
         }
